@@ -13,8 +13,23 @@
    Model/Resolver.v (c08_history_independent_resolver). *)
 From Apko Require Import Base.Prelude Model.Caches Spec.CachesSpec Proofs.CachesProofs
   Model.CachesBridge Proofs.CachesBridgeProofs.
-From Apko Require Model.Version Model.Resolver.
+From Apko Require Model.Version Model.Resolver Generated.C08Caches.
 Open Scope string_scope. Open Scope list_scope.
+
+(* THE SOURCE HAS THE SHAPE THE MODEL TRANSCRIBES (regenerated from /repo on every
+   run by goextract/gen_c08.go). Model/Caches.v: clone_resolver shares the
+   index list, allocates new map objects for nameMap / installIfMap whose
+   values are the SAME slices (maps.Clone is shallow) and a new empty selected;
+   resolver_get / dq_get hand out a clone on every path, under the mutex; the
+   memo tables are sync.Maps; the two explicit tie-breaks are present. *)
+Theorem c08_source_shape :
+  C08Caches.clone_shape = [("indexes", "shared"); ("installIfMap", "maps.Clone"); ("nameMap", "maps.Clone"); ("selected", "fresh-empty")] /\
+  C08Caches.resolver_get_returns = ["clone"; "clone"] /\ C08Caches.resolver_get_locked = true /\
+  C08Caches.dq_get_returns = ["maps.Clone"; "maps.Clone"] /\ C08Caches.dq_get_locked = true /\
+  C08Caches.memo_table_types = [("parsedConstraints", "sync.Map"); ("parsedVersions", "sync.Map")] /\
+  C08Caches.lowest_tiebreak_present = true /\ C08Caches.compare_ends_with_names = true.
+Proof. repeat split; reflexivity. Qed.
+Print Assumptions c08_source_shape.
 
 (* FRAME. Whatever history came before, a call changes NO object that existed
    when it started: no cached prototype, none of the slices shared by the
@@ -197,6 +212,27 @@ Theorem c08_order_deterministic_partial : forall U world dq0 s1 s2,
   Resolver.resolve U world dq0 s1 = Resolver.resolve U world dq0 s2.
 Proof. exact order_deterministic_without_install_if. Qed.
 Print Assumptions c08_order_deterministic_partial.
+
+(* [partial, one loop] WITH install_if packages: if at most one install_if event
+   can happen in a range loop (a visit either changes nothing or leads to one
+   absorbing state), every legal iteration order of that loop gives the same
+   dependency list. c08_single_trigger_satisfiable: w -> a, a-x install_if a.
+   MISSING for the design's statement about whole resolutions: threading this
+   per-loop condition through phase2 (one loop per requested package). *)
+Theorem c08_order_deterministic_partial_single_trigger : forall R deps added st1 s1 s2,
+  SingleTrigger R (deps, added) st1 ->
+  Resolver.legal_sched_b (List.map fst added) s1 = true ->
+  Resolver.legal_sched_b (List.map fst added) s2 = true ->
+  Resolver.iif_loop R s1 deps added = Resolver.iif_loop R s2 deps added.
+Proof. exact iif_loop_single_trigger. Qed.
+Print Assumptions c08_order_deterministic_partial_single_trigger.
+
+Theorem c08_single_trigger_satisfiable :
+  let R := Resolver.new_resolver st_universe in
+  (exists dq sel i, Resolver.get_pkg_core R (Resolver.cook_str "w") [] [] [] = Ok (dq, sel, i, [1], [("a", 1)])) /\
+  SingleTrigger R ([1], [("a", 1)]) ([1; 2], [("a", 1); ("a-x", 2)]).
+Proof. exact single_trigger_example. Qed.
+Print Assumptions c08_single_trigger_satisfiable.
 
 (* the boolean validator run on the implementation's observed outcomes decides
    exactly the readable statement *)
